@@ -772,7 +772,12 @@ where
             match ch.try_recv() {
                 Ok(Hit(hash, entry, timestamp)) => {
                     freq.increment(hash);
-                    entry.set_last_accessed(timestamp);
+                    // This read may have been recorded before a later update of the
+                    // same entry (they share the EntryInfo). Never move the last
+                    // accessed time backwards.
+                    if entry.last_accessed().map_or(true, |la| la < timestamp) {
+                        entry.set_last_accessed(timestamp);
+                    }
                     if entry.is_admitted() {
                         deqs.move_to_back_ao(&entry);
                     }
